@@ -232,4 +232,58 @@ def strategy(tier="quick"):
         no_orphan_coroutines)
 
 
-PARTS = [Part("schedules", strategy, execute, quick=1600, thorough=8000)]
+def enumerate_plain(tier):
+    for shape in ("map-sink", "filter-drops", "partition-holds", "two-sinks"):
+        for n in (1, 3):
+            yield {"plain": True, "shape": shape, "n": n}
+
+
+def execute_plain(case):
+    """a plain synchronous pipeline driven from the caller's thread (no event loop running there),
+    counters created the default way (no loop= argument): once the count is back at zero the
+    completion callback runs (real threads: 10 s bound for work that takes milliseconds)"""
+    import threading
+    import time as _t
+    from streamz import Stream
+    from streamz.core import RefCounter
+    src = Stream()
+    got = []
+    if case["shape"] == "map-sink":
+        src.map(lambda x: x + 1).sink(got.append)
+    elif case["shape"] == "filter-drops":
+        src.filter(lambda x: False).sink(got.append)
+    elif case["shape"] == "partition-holds":
+        src.partition(2).sink(got.append)
+    else:
+        src.sink(got.append)
+        src.map(lambda x: x).sink(got.append)
+    fired, counters = [], []
+    for i in range(case["n"]):
+        rc = RefCounter(cb=lambda i=i: fired.append((i, threading.get_ident())))
+        counters.append(rc)
+        src.emit(i, metadata=[{"ref": rc}])
+    # partition(2) legitimately keeps the last element of an odd run
+    held = {case["n"] - 1} if case["shape"] == "partition-holds" and case["n"] % 2 else set()
+    want = set(range(case["n"])) - held
+    t0 = _t.time()
+    while {i for i, _ in fired} != want and _t.time() - t0 < 10:
+        _t.sleep(0.002)
+    v = []
+    zero = [i for i, rc in enumerate(counters) if rc.count == 0]
+    missing = sorted(set(zero) - {i for i, _ in fired})
+    if missing:
+        v.append(("%s:no-callback-at-zero" % ID, "plain pipeline %s: counters %s are back at zero "
+                  "but their completion callbacks have not run after 10 s" % (case["shape"], missing)))
+    wrong = sorted(want - set(zero))
+    if wrong:
+        v.append(("%s:%s:leak" % (ID, case["shape"]), "counters %s not back at zero: %s" % (
+            wrong, [counters[i].count for i in wrong])))
+    early = sorted({i for i, _ in fired} & held)
+    if early:
+        v.append(("%s:partition:early-release" % ID, "callback of held element %s ran" % early))
+    return Result(v, nontrivial=True, classes=["plain-pipeline-default-counter"])
+
+
+PARTS = [Part("schedules", strategy, execute, quick=1600, thorough=8000),
+         Part("plain-pipeline", None, execute_plain, quick=0, thorough=0, shards=1,
+              exhaustive=enumerate_plain)]
